@@ -117,13 +117,23 @@ func c02OpenAndCheck(img c02Image, states []*Model, hi int, probe map[string][]s
 		e.Close()
 		return msg
 	}
+	// the engine that repaired the log goes on appending to it: what it writes must land where the next start
+	// reads it (after a torn tail was cut off, behind the cut and not behind a gap)
+	if err := e.KVSet("zz_repairing_engine", []byte("v")); err != nil {
+		e.Close()
+		return "KVSet in the engine that recovered the crash image failed: " + err.Error()
+	}
+	if d1, derr = TakeDump(e, probe); derr != nil {
+		e.Close()
+		return "reading the recovered engine after one more write failed: " + derr.Error()
+	}
 	if err := e.Close(); err != nil {
 		return "Close of the recovered engine failed: " + err.Error()
 	}
 	// fixed point: opening again gives the identical read-out
 	e2, err := engine.Open(engineOpts(work))
 	if err != nil {
-		return fmt.Sprintf("second Open of the repaired directory failed: %v", err)
+		return fmt.Sprintf("second Open of the repaired directory (after one more write by the engine that repaired it) failed: %v", err)
 	}
 	d2, derr := TakeDump(e2, probe)
 	if derr != nil {
@@ -132,7 +142,7 @@ func c02OpenAndCheck(img c02Image, states []*Model, hi int, probe map[string][]s
 	}
 	if diff := DiffDumps(d1, d2); diff != "" {
 		e2.Close()
-		return "the repaired directory is not a fixed point: second Open differs: " + diff
+		return "the repaired directory, after one more write by the engine that repaired it, is not a fixed point: second Open differs: " + diff
 	}
 	// writing more and restarting loses nothing further
 	if err := e2.KVSet("zz_after_crash", []byte("v")); err != nil {
@@ -434,22 +444,32 @@ func c02OpenTruncated(img c02Image, aof string, content []byte, scratch string, 
 		return nil, fmt.Sprintf("Open failed: %v", err)
 	}
 	d, derr := TakeDump(e, probe)
+	if derr != nil {
+		e.Close()
+		return nil, "reading the recovered engine failed: " + derr.Error()
+	}
+	// the engine that cut the torn tail off goes on appending: its next write must land right behind the cut
+	if err := e.KVSet("zz_repairing_engine", []byte("v")); err != nil {
+		e.Close()
+		return nil, "KVSet in the engine that repaired the torn log failed: " + err.Error()
+	}
+	dw, derr := TakeDump(e, probe)
 	e.Close()
 	if derr != nil {
-		return nil, "reading the recovered engine failed: " + derr.Error()
+		return nil, "reading the recovered engine after one more write failed: " + derr.Error()
 	}
 	// fixed point
 	e2, err := engine.Open(engineOpts(work))
 	if err != nil {
-		return nil, fmt.Sprintf("second Open failed: %v", err)
+		return nil, fmt.Sprintf("second Open (after one more write by the engine that repaired the log) failed: %v", err)
 	}
 	d2, derr := TakeDump(e2, probe)
 	e2.Close()
 	if derr != nil {
 		return nil, "reading after second Open failed: " + derr.Error()
 	}
-	if diff := DiffDumps(d, d2); diff != "" {
-		return nil, "not a fixed point: " + diff
+	if diff := DiffDumps(dw, d2); diff != "" {
+		return nil, "not a fixed point (after one more write by the engine that repaired the log): " + diff
 	}
 	return d, ""
 }
@@ -480,7 +500,7 @@ func c02Classify(ops []Op) (labels []string, admin bool) {
 
 func TestVerif_C02_crash(t *testing.T) {
 	col := verifkit.New("C02", "crash",
-		"rapid-generated histories of 5-26 engine ops (with Flush markers, snapshots, rewrites, drops, imports, compress, deletes) x a crash image of the data directory at EVERY verif hook point the history hits (journal/apply gaps of every mutating op; each phase boundary of SaveSnapshot, RewriteAOF, Compress, VDeleteIndex, the delete cascade, and of recovery itself during restarts) x a second crash image taken inside the recovery of each image x torn log tails: at journal points the harness forces the lazy writer to flush (as its ticker could) and then recovers from every prefix of the bytes that flush wrote (all header offsets, payload offsets strided in quick / all in thorough); per image: Open succeeds, every item's value is one it held between the durable floor and the interrupted op, fixed point, write-more-and-restart, and (for images that hold leftover temporary files, and one in eight of the others) delete + log compaction + restart; non-trivial = the history contains a multi-step op (snapshot, rewrite, drop, import, compress, delete) so that images fall strictly inside it")
+		"rapid-generated histories of 5-26 engine ops (with Flush markers, snapshots, rewrites, drops, imports, compress, deletes) x a crash image of the data directory at EVERY verif hook point the history hits (journal/apply gaps of every mutating op; each phase boundary of SaveSnapshot, RewriteAOF, Compress, VDeleteIndex, the delete cascade, and of recovery itself during restarts) x a second crash image taken inside the recovery of each image x torn log tails: at journal points the harness forces the lazy writer to flush (as its ticker could) and then recovers from every prefix of the bytes that flush wrote (all header offsets, payload offsets strided in quick / all in thorough); per image: Open succeeds, every item's value is one it held between the durable floor and the interrupted op, one more write by the recovering engine itself, fixed point, write-more-and-restart, and (for images that hold leftover temporary files, and one in eight of the others) delete + log compaction + restart; non-trivial = the history contains a multi-step op (snapshot, rewrite, drop, import, compress, delete) so that images fall strictly inside it")
 	defer col.Finish()
 	torn := verifkit.Pick(4, 10)
 	maxImg := verifkit.Pick(120, 400)
